@@ -11,13 +11,21 @@
                  `p_code_ne_correct`, `p_code_fails_poisson`, `p_code_minus_correct`,
                  `p_code_consistent` (the code as it is — known finding);
                  `p_unnormalised_factor`
-  * `Multi.lean` `multi_centre_is_sum`
-  * `Table.lean` `table_ok`, `alphas_positive`, `load_every_element`, `load_normalises`,
-                 `load_unknown_rejected`
-  Closed forms and table are regenerated from `/repo` (`Gen/Coulomb.lean`,
+  * `Multi.lean` `multi_centre_is_sum` (hand model `Coulomb.coulombPotential`)
+  * `MultiGen.lean` about the GENERATED `coulomb_potential`: `potential_gen_eq_model` (bridge),
+                 `multi_centre_is_sum_gen`, `multi_centre_s_only`, `shape_guards_reject`,
+                 `partial_p_rejected`, `multi_centre_total`, `multi_centre_never_unmodelled`
+  * `Table.lean` `table_ok`, `alphas_positive` (+ `model_load_*` about the hand model `Coulomb.load`)
+  * `Loader.lean` about the GENERATED `load_atomic_gaussian_params`: `loader_gen_eq_model` (bridge),
+                 `load_every_element`, `load_normalises`, `load_unknown_rejected`, `load_type_error`,
+                 `load_cache_independent`, `load_unreadable_file`
+  Closed forms, multi-centre routine, loader and table are regenerated from `/repo`
+  (`Gen/Coulomb.lean`, `Gen/CoulombPotential.lean`, `Gen/CoulombLoader.lean`,
   `Gen/CoulombParams.lean`) on every run; `erf` is `realErf` (its integral).
 -/
 import GridVerif.Props.C17.S
 import GridVerif.Props.C17.P
 import GridVerif.Props.C17.Multi
+import GridVerif.Props.C17.MultiGen
 import GridVerif.Props.C17.Table
+import GridVerif.Props.C17.Loader
